@@ -2,6 +2,7 @@
 # tools/selftest.sh - evidence that the checks have teeth and stay quiet:
 #   1. the repository's baseline tests pass with the guard off
 #   2. every seeded change under seeded/ is reported by the quick check of its property (and /repo is restored)
+#      (SCRATCH=1: the change is applied to a scratch worktree instead, /repo is never touched)
 #   3. corrupting one recorded field of one trace makes trace validation reject it (binding demonstration)
 cd "$(dirname "$0")/.."
 fail=0
@@ -10,7 +11,7 @@ echo "== baseline tests (guard off)"
 echo "== seeded changes"
 for d in seeded/C*/; do
   if grep -q '"obsolete"' "$d/meta.json"; then echo "$(basename "$d"): obsolete (skipped)"; continue; fi
-  r=$(tools/try_seed.sh "$d" 2>&1 | tail -1)
+  if [ -n "${SCRATCH:-}" ]; then r=$(tools/try_seed_scratch.sh "$d" 2>&1 | tail -1); else r=$(tools/try_seed.sh "$d" 2>&1 | tail -1); fi
   echo "$(basename "$d"): $r" | cut -c1-200
   case "$r" in *CAUGHT*) ;; *) fail=1;; esac
 done
